@@ -23,6 +23,7 @@ type HarnessSpec struct {
 	Covers   []string       `json:"covers"`
 	SkipQuick bool          `json:"skip_quick"`
 	MaxSteps int            `json:"max_steps"`
+	Logic    string         `json:"logic"` // SMT logic for this harness (default QF_BV; QF_FPBV when floats are symbolic)
 }
 
 type PropertySpec struct {
@@ -315,6 +316,7 @@ func cmdCheck(args []string) int {
 		} else {
 			e.cfg.MaxSteps = cfg.MaxSteps
 		}
+		e.cfg.Logic = h.Logic
 		pkgName := spec.Pkg
 		if h.Pkg != "" {
 			pkgName = h.Pkg
